@@ -3,6 +3,7 @@ package main
 import (
 	"fmt"
 	"net"
+	"os"
 	"strings"
 	"sync"
 	"sync/atomic"
@@ -103,7 +104,13 @@ func serverSideCase(c *h.Case, k int) {
 			{ProxyName: stcpName, ProxyType: "stcp", Sk: "k", AllowUsers: []string{"*"}},
 		} {
 			r, err := p.NewProxy(m, 10*time.Second)
+			for try := 0; try < 3 && err == nil && m.ProxyType == "tcp" && strings.Contains(r.Error, "port"); try++ {
+				tcpPort = pa.Get() // lost a race for the port: take another one
+				m.RemotePort = tcpPort
+				r, err = p.NewProxy(m, 10*time.Second)
+			}
 			if err != nil || r.Error != "" {
+				fmt.Fprintf(os.Stderr, "case %d: registration of %s failed: %v %+v\n", c.Idx, m.ProxyName, err, r)
 				run.Inconclusive("A: registration failed")
 				c.Ev("registration-failed", "name", m.ProxyName, "err", fmt.Sprint(err), "resp", r)
 				return
@@ -168,6 +175,14 @@ func serverSideCase(c *h.Case, k int) {
 			}
 		} else {
 			run.Count("A_live_echo_ok", 1)
+		}
+	}
+	if n := len(pings); n > 0 && pings[n-1].Pong == 0 {
+		// a ping stayed unanswered: either the session is being closed (judged below) or the harness lost track
+		waitUntil(3*time.Second, func() bool { return closedAt.Load() != 0 })
+		if closedAt.Load() == 0 {
+			run.Inconclusive("A: ping unanswered although the session is open")
+			return
 		}
 	}
 	if ca := closedAt.Load(); ca != 0 && nPings > 0 {
@@ -300,7 +315,7 @@ func serverSideCase(c *h.Case, k int) {
 
 	// ---- everything the session held must be released
 	var why string
-	released := waitUntil(10*time.Second, func() bool {
+	released := waitUntil(releaseGrace, func() bool {
 		why = ""
 		snap := srv.Snapshot()
 		for _, s := range snap.Sessions {
@@ -341,7 +356,7 @@ func serverSideCase(c *h.Case, k int) {
 	})
 	if !released {
 		key := strings.SplitN(why, ":", 2)[0]
-		c.Violation("dead-session-resource-not-released:"+key, "moment %s, mux=%v: 10 s after the server closed the silent session %s it still holds: %s", moment, mux, p.RunID, why)
+		c.Violation("dead-session-resource-not-released:"+key, "moment %s, mux=%v: %v after the server closed the silent session %s it still holds: %s", moment, mux, releaseGrace, p.RunID, why)
 	} else {
 		run.Count("A_release_ledgers_clean", 1)
 		stats.add("A_close_to_released", time.Duration(h.Now()-ca))
